@@ -270,7 +270,7 @@ func convDomain(e *emitter) {
 		e.op("plmn2nas", tx(digits(e, 3)), tx(digits(e, 2+e.rng.Intn(2))))
 	}
 	for _, m := range [][2]string{{"", "01"}, {"00", "01"}, {"001", ""}, {"001", "0"}, {"001", "0123"}, {"0010", "01"}, {"0a1", "01"}, {"001", "0a"},
-		{"001", "01a"}, {"001", "01f"}, {"+01", "-1"}, {"\xff01", "01"}, {"001", "\x8001"}} {
+		{"001", "01a"}, {"001", "01f"}, {"+01", "-1"}, {"\xff01", "01"}, {"001", "\x8001"}, {"00a", "01"}, {"00-", "012"}, {"00\xff", "01"}} {
 		e.op("plmn2nas", tx(m[0]), tx(m[1]))
 	}
 	// ---- S-NSSAI: every SST with SD absent / present; edges of int32 → uint8; bad SD text -----------------
